@@ -94,11 +94,18 @@ def run(c):
         full = merge_wants(m, ws)
         for fv in fill_variants(m, full):                                              # constant contents (all 0x00, 0xFF, ...)
             cases.append(dict(k="puree", m=m, mand=fv["mand"], opt=fv["opt"], pre=rng.choice([0, 17])))
-        for w in rng.sample(ws, min(len(ws), 4)):
-            fv = fill_variants(m, w)[0]                                                # all-zero contents of single elements
-            cases.append(dict(k="puree", m=m, mand=fv["mand"], opt=fv["opt"], pre=1))
+        seenset = set()
+        for w in ws:                                                                   # all-zero / all-ones contents of every single element
+            key = json.dumps([s_["p"] for s_ in w["opt"]])
+            if key in seenset: continue
+            seenset.add(key)
+            fvs = fill_variants(m, w)
+            cases.append(dict(k="puree", m=m, mand=fvs[0]["mand"], opt=fvs[0]["opt"], pre=1))
+            cases.append(dict(k="puree", m=m, mand=fvs[1]["mand"], opt=fvs[1]["opt"], pre=0))
         for pre in (0, 1, 17, 4096):
             cases.append(dict(k="puree", m=m, mand=full["mand"], opt=full["opt"], pre=pre))
+    # all encoded messages are kept and encoded once more at the end, over a second later (one event, Trace_C10!PureLater)
+    cases.append(dict(k="later"))
     events, hang = run_codec(c, drv, cases)
     if hang is not None:
         c.report("Purity", "hang", "case %d did not return" % hang, cases[hang]); events = events[:hang]
@@ -108,10 +115,17 @@ def run(c):
     def classify(idx, t):
         if t[0] != "MISMATCH": return None
         e = json.loads(events[idx])
+        if e["op"] == "PureLater":
+            return ("Encode", t[2], "%d of %d messages encode to other octets %d ms later; first: case %s, %s -> %s" % (
+                len(e["which"]), e["n"], e["wait"], e["which"][:1], e["first"][0][:40], e["later"][0][:40]),
+                dict(case=[cases[k] for k in e["which"][:3]] + [cases[idx]], observed=dict(which=e["which"], first=e["first"][:3], later=e["later"][:3], wait=e["wait"])))
         return ("Decode" if e["op"] == "PureD" else "Encode", t[2], "%s: %s" % (e.get("m") or e["d1"]["msg"] or e.get("entry"), t[2]),
                 dict(case=cases[idx], observed={k: v for k, v in e.items() if k not in ("inp", "mand", "opt")}))
 
     def confirm(idx, t):
+        if cases[idx].get("k") == "later":
+            e = json.loads(events[idx])
+            return confirm_by_tlc(c, drv, cases[idx], "Trace_C10", t[2], context=[cases[k] for k in e["which"][:3]])
         return confirm_by_tlc(c, drv, cases[idx], "Trace_C10", t[2], context=cases[max(0, idx - 2):idx])
     c.triage(mism, classify, confirm)
     def _c(e): e["inp_after"] = [(e["inp_after"][0] + 1) % 256] + e["inp_after"][1:]; return e
